@@ -276,7 +276,11 @@ func TestVerifC05(t *testing.T) {
 			if !c.l[1].isList() {
 				return vC05Result{obs: vL(vZ(-1))}
 			}
-			obs, fl, nontrivial = vC05RunHist(c.l[1])
+			var rejected int
+			obs, fl, nontrivial, rejected = vC05RunHist(c.l[1])
+			if rejected > 0 {
+				res.count("history-shape", "receiver-used-after-rejected-decode")
+			}
 			res.count("kind", "history")
 			res.count("history-ops", vSizeBucket(len(c.l[1].l)))
 			if nontrivial {
